@@ -22,6 +22,7 @@ import (
 	"fmt"
 	"io"
 	"net"
+	"os"
 	"sync"
 	"testing"
 	"time"
@@ -540,6 +541,7 @@ func TestVerif_C16_Flap(t *testing.T) {
 		cleanup()
 		if len(hung) > 0 {
 			r.Add("agents_stop_watchdog", len(hung))
+			fmt.Fprintf(os.Stderr, "c16flap %d: agents whose Stop hit the watchdog: %v (sleeper=%q)\n", ci, hung, out.Sleeper)
 		}
 		r.Add("flap_histories", 1)
 		if out.Sleeper != "" {
